@@ -64,8 +64,12 @@ def gen(seed, tier):
                 code, v = rng.choice(LEAF_ACTS + [("assign", dflt), ("add", 0), ("add", -1)])
                 acts.append([p, code, v])
         for p in _inner_points(a, d + 1):
-            if rng.random() < 0.15:
+            r = rng.random()
+            if r < 0.15:
                 acts.append([p, "skip", 0])
+            elif r < 0.35:
+                # the body only touches the offered sub-fiber: creates an element below it, writes nothing
+                acts.append([p, "touch", rng.randrange(0, n + 1)])
         yield {"prop": PROP, "d": d, "dflt": dflt, "z": z, "a": a, "acts": acts,
                # unowned fibers of depth >= 2 cannot know that their payloads are fibers (an empty
                # unowned fiber guesses a scalar default), so deeper destinations live in a tensor
@@ -109,7 +113,11 @@ def run(case):
                 elif act[0] == "reset":
                     zr <<= dflt
             else:
-                if acts.get(tuple(p), ("", 0))[0] == "skip":
+                act = acts.get(tuple(p), ("", 0))
+                if act[0] == "skip":
+                    continue
+                if act[0] == "touch":
+                    zr.getPositionRef(act[1])
                     continue
                 loop(zr, av, p, depth - 1)
             if tz is not None and side.get("member_throughout", True):
